@@ -83,6 +83,7 @@ type Conn struct {
 type Delivery struct {
 	Conn int
 	Msg  []int64
+	Dig  int64 // purge experiment: digest of the payload the encoding leaves out (0 = nothing left out)
 }
 
 type Env struct {
@@ -104,6 +105,8 @@ type Env struct {
 	lastOuts []Delivery
 	lastVerdict int
 	nOps     int
+	lastReq  *Req // the request the last Step consumed
+	digests  bool // purge experiment: write an X line with the payload digest after a D line
 }
 
 var theKey *ecdsa.PrivateKey
@@ -185,7 +188,11 @@ func (s sink) Send(pm hwebsocket.ProtoMsg) {
 }
 
 func (s sink) SendMsg(msg hwebsocket.Msg) {
-	s.env.outs = append(s.env.outs, Delivery{Conn: s.conn, Msg: s.env.encMsg(msg)})
+	d := Delivery{Conn: s.conn, Msg: s.env.encMsg(msg)}
+	if s.env.digests {
+		d.Dig = payloadDigest(msg)
+	}
+	s.env.outs = append(s.env.outs, d)
 }
 
 func (e *Env) uuidIdx(u string) uint32 {
@@ -526,6 +533,7 @@ func (e *Env) encLatency(m *hagallpb.SignedLatencyResponse) []int64 {
 func (e *Env) begin(op []int64) {
 	e.outs = e.outs[:0]
 	e.curReq = nil
+	e.lastReq = nil
 	fmt.Fprintf(e.out, "O %s\n", ints(op))
 	e.nOps++
 }
@@ -533,6 +541,9 @@ func (e *Env) begin(op []int64) {
 func (e *Env) end(verdict int) {
 	for _, d := range e.outs {
 		fmt.Fprintf(e.out, "D %d %s\n", d.Conn, ints(d.Msg))
+		if e.digests && d.Dig != 0 {
+			fmt.Fprintf(e.out, "X %d\n", d.Dig)
+		}
 	}
 	fmt.Fprintf(e.out, "V %d\n", verdict)
 	e.lastOuts = append(e.lastOuts[:0], e.outs...)
@@ -735,6 +746,7 @@ func (e *Env) Step(c int) {
 	saved := append([]Delivery(nil), e.outs...)
 	e.begin([]int64{3, int64(c), hint})
 	e.outs = saved
+	e.lastReq = q.req
 	if q.req != nil {
 		fmt.Fprintf(e.out, "R %s\n", ints(q.req.Enc()))
 	}
